@@ -181,3 +181,35 @@ theorem cleanAll_sound (T : List Facts) (P : Prog σ) (hcov : Covers T P) (es : 
   exact closed_sound T P _ h.2 hcov e ((List.all_eq_true.1 h.1) e he)
 
 end Cotengra.Flow
+
+namespace Cotengra.Share
+
+/-- a container of the copy above the copy depth is private: it is no container of the original -/
+theorem copy_private (o : Obj) (he : AllEven o) (d : Nat) (p : List Nat) (hp : p.length < d)
+    (q : List Nat) : copyD d o p ≠ o q := by
+  unfold copyD
+  simp only [hp, if_true]
+  intro h
+  have h2 := he q
+  omega
+
+/-- at or below the copy depth the copy's container *is* the original's -/
+theorem copy_shared (o : Obj) (d : Nat) (p : List Nat) (hp : d ≤ p.length) : copyD d o p = o p := by
+  unfold copyD
+  have : ¬ p.length < d := by omega
+  simp [this]
+
+/-- soundness of the table check: if every attribute is copied at least as deep as it is mutated,
+    then every in-place mutation performed through a copy (at any depth up to the deepest one
+    observed for that attribute) writes into a container the original does not own -- a
+    non-inplace operation cannot change the state, visible or hidden, of its argument -/
+theorem safe_sound (rows : List (Nat × Nat)) (h : safe rows = true) :
+    ∀ r ∈ rows, ∀ (o : Obj), AllEven o → ∀ (p : List Nat), p.length + 1 ≤ r.2 →
+      ∀ q, copyD r.1 o p ≠ o q := by
+  intro r hr o he p hp q
+  have hrow := (List.all_eq_true.1 h) r hr
+  simp only [decide_eq_true_eq] at hrow
+  exact copy_private o he r.1 p (by omega) q
+
+end Cotengra.Share
+
